@@ -28,12 +28,18 @@ func (f Filter) IsAnyURLAccepted() bool {
 
 func (f Filter) GetSupportedMethods() []string {
 	if len(f.Method) == 0 {
+		// a filter without methods accepts every method: all of them must be
+		// registered with the proxy, or the others never reach the flow
 		return []string{
 			http.MethodGet,
 			http.MethodPost,
 			http.MethodPut,
 			http.MethodDelete,
 			http.MethodPatch,
+			http.MethodHead,
+			http.MethodOptions,
+			http.MethodConnect,
+			http.MethodTrace,
 		}
 	}
 	return f.Method
